@@ -124,9 +124,62 @@ def branch_edge_entails(classify, goal, goal_vars=(), norm_fn=None, with_node=Fa
 
 
 def known(g, node, classify, goal, goal_vars=(), norm_fn=None, with_node=False, start=None, expand_test=None):
-    """path form of `goal is known at node`: every entry->node path crosses a branch edge that forces goal.
+    """path form of `goal is known at node`: every entry->node path crosses a branch edge that forces goal - or, when no single
+    edge does, the branch outcomes collected along every path force it together (known_on_paths).
     expand_test(test_ast, branch_node) may rewrite the test first (locals expanded, helpers inlined)."""
-    return must_cross(g, node, branch_edge_entails(classify, goal, goal_vars, norm_fn, with_node, expand_test), start)
+    if must_cross(g, node, branch_edge_entails(classify, goal, goal_vars, norm_fn, with_node, expand_test), start):
+        return True
+    return known_on_paths(g, node, classify, goal, goal_vars, norm_fn, with_node, start, expand_test)
+
+
+def known_on_paths(g, node, classify, goal, goal_vars=(), norm_fn=None, with_node=False, start=None, expand_test=None, limit=6000):
+    """on every (propositionally feasible) path from the entry / `start` to `node`, the branch outcomes taken - each dropped again
+    when a name its test reads is re-bound - entail `goal` together.  Covers a condition split over nested ifs, over an early
+    return plus a later test, or weakened by a disjunction that a later test resolves."""
+    from .dataflow import node_defs
+    seen = set()
+    stack = [(start or g.entry, ())]
+    steps = 0
+    gv = list(goal_vars)
+    while stack:
+        n, cons = stack.pop()
+        steps += 1
+        if steps > limit:
+            return False
+        key = (n.id, tuple(sorted((repr(t), p) for t, p, _ in cons)))
+        if key in seen:
+            continue
+        seen.add(key)
+        if n.id == node.id and (n is not (start or g.entry) or cons or steps > 1):
+            # is `not goal` still possible under the collected outcomes?
+            vs = set(gv)
+            for t, _, _ in cons:
+                tree_vars(t, vs)
+            vs = sorted(vs)
+            if len(vs) > 12:
+                return False
+            for bits in itertools.product((False, True), repeat=len(vs)):
+                a = dict(zip(vs, bits))
+                if all(eval_tree(t, a) == pol for t, pol, _ in cons) and not goal(a):
+                    return False
+            continue            # a path that reaches the node ends there (later visits start from the node again)
+        defs = set(node_defs(n)) if n.kind != "branch" else set()
+        if defs:
+            cons = tuple(c for c in cons if not (c[2] & defs))
+        for kind, m in n.succ:
+            if kind == "exc" and m.kind in ("raise_exit",):
+                continue
+            c2 = cons
+            if n.kind == "branch" and kind in ("true", "false"):
+                cl = (lambda lf, n=n: classify(lf, n)) if with_node else classify
+                test = expand_test(n.ast.test, n) if expand_test is not None else n.ast.test
+                tree = to_tree(test, cl, norm_fn)
+                names = frozenset(y.id for y in ast.walk(n.ast.test) if isinstance(y, ast.Name))
+                c2 = cons + ((tree, kind == "true", names),)
+                if not _satisfiable([(t, p) for t, p, _ in c2]):
+                    continue
+            stack.append((m, c2))
+    return True
 
 
 def _satisfiable(constraints):
